@@ -114,6 +114,12 @@ FIXED_CONFIGS = [
     {"field_options": {"text": {"match_type": "", "type": "match_phrase", "boost": 2}}},
     {"match_word_as_phrase": True, "field_options": {"text": {"slop": 2}}},
     {"nested_fields": {}, "object_fields": {}},
+    # every documented kind of full-text query as match_type (the text goes under "query" for all of them)
+    {"field_options": {"title": {"match_type": "match_phrase_prefix", "max_expansions": 5},
+                       "text": {"match_type": "match_bool_prefix"}, "a": {"match_type": "match_phrase"},
+                       "c": {"match_type": "common"}}},
+    {"default_field": "title", "field_options": {"title": {"match_type": "match_bool_prefix", "fuzziness": 1},
+                                                  "a": {"match_type": "match_phrase_prefix"}, "c": {"match_type": "term"}}},
 ]
 
 
